@@ -1680,6 +1680,11 @@ pub fn compile_grouping_key(
         let original_plan = gk_plan;
         let encoding_range = encoding_range(&gk_plan, planner);
         debug!("Encoding range of {:?} for {:?}", &encoding_range, &gk_plan);
+        // A range too wide for i64 arithmetic is treated like an unknown range.
+        let encoding_range = encoding_range.filter(|(min, max)| {
+            max.checked_sub(*min).and_then(|d| d.checked_add(1)).is_some()
+                && min.checked_neg().and_then(|m| m.checked_add(1)).is_some()
+        });
         let (max_cardinality, offset) = match encoding_range {
             Some((min, max)) => {
                 if min <= 0 && gk_plan.is_nullable() {
